@@ -204,6 +204,14 @@ engine_a("C30",
     quick=tier(2500, 35),
 )
 
+engine_a("C42",
+    scenarios=["C42.reload"],
+    technique="deterministic simulation of sequences of real config reloads (pki.cert/key/ca/blocklist combinations from the tape) on a node with connected peers; certificates and trust store in use compared after every reload with a reference of the statement, revoked peers checked against a bounded deadline on the simulated clock",
+    rule="one run = node starting with v1, v2 or both (Curve25519 or P-256, optionally two networks) and 1-2 connected peers under two CAs, then 1-15 reloads drawn from: re-issue, add/drop a certificate version, changed networks, other curve, mismatched key, expired, garbage, v1 for another key, new key pair; trust store unchanged / CA removed or restored / unreadable bundle / all-expired bundle / peer blocklisted or unblocked; distinct = distinct abstract trace hash; non-trivial = at least one certificate reload was accepted and one refused",
+    level_text="Seeded search over reload histories: after every reload the curve and primary network never change, a version's networks never change while it is in use, v1 and v2 in use share one public key, the certificates in use are exactly the candidate's when the reference accepts it and exactly the previous ones when it refuses (changed networks/curve, v2 dropped without equal-network v1, unusable material), an unreadable or all-expired CA bundle leaves the previous trust store and blocklist, and a newly blocklisted or untrusted peer is gone from the hostmap within max(check interval, pending-deletion interval)+1.2 s. The case 'adding a v2 certificate with more networks than the v1 in use' is not generated (the statement leaves it open). Evidence, not proof.",
+    quick=tier(3000, 35),
+)
+
 NOT_APPLICABLE = {
     "C03": "pure encode/decode round trip over input bytes; no clock, schedule, fault or second party for a simulator to control",
     "C04": "pure function of (certificate to sign, signer); offline CLI; nothing to schedule or fault",
